@@ -21,6 +21,7 @@ const (
 	kU tkind = iota // unsigned 64
 	kI              // signed 64
 	kC              // untyped integer constant
+	kB              // []byte
 )
 
 type trans struct {
@@ -77,6 +78,13 @@ func (t *trans) expr(e ast.Expr, want tkind) (tkind, string) {
 			_ = p
 		}
 		return t.fail("identifier %s", v.Name)
+	case *ast.IndexExpr:
+		bk, bs := t.expr(v.X, kU)
+		if bk != kB {
+			return t.fail("index of something that is not a byte slice")
+		}
+		_, is := t.expr(v.Index, kU)
+		return kU, "(Go64.idx " + bs + " " + is + ")"
 	case *ast.CallExpr:
 		if id, ok := v.Fun.(*ast.Ident); ok {
 			if k, isConv := kindOfType(id); isConv && len(v.Args) == 1 {
@@ -143,6 +151,14 @@ func (t *trans) expr(e ast.Expr, want tkind) (tkind, string) {
 			return lk, "(Go64.sub" + sfx + " " + ls + " " + rs + ")"
 		case token.MUL:
 			return lk, "(Go64.mul" + sfx + " " + ls + " " + rs + ")"
+		case token.QUO:
+			if lk == kU {
+				return kU, "(Go64.divU " + ls + " " + rs + ")"
+			}
+		case token.REM:
+			if lk == kU {
+				return kU, "(Go64.modU " + ls + " " + rs + ")"
+			}
 		}
 		return t.fail("operator %s", v.Op)
 	}
@@ -287,6 +303,15 @@ func (x *extractor) genFuncs() string {
 		t.known[name] = sig
 		b.WriteString(def + "\n")
 	}
+	// the body of the bit-extraction loop
+	if _, fd := x.fn("utils", "GetBitsAsUint64"); fd != nil && fd.Body != nil {
+		if def := t.translateLoopBody("GetBitsAsUint64", fd); def != "" {
+			b.WriteString(def + "\n")
+		} else {
+			x.problem("utils.GetBitsAsUint64 loop body not translatable: %s", t.err)
+			fmt.Fprintf(&b, "-- utils.GetBitsAsUint64 loop body: not translatable (%s)\n\n", t.err)
+		}
+	}
 	b.WriteString("end Ntrip.Gen\n")
 	return b.String()
 }
@@ -311,4 +336,176 @@ func (x *extractor) constInt(alias, name string) (string, bool) {
 		}
 	}
 	return s, true
+}
+
+
+// translateLoopBody translates the body of the single `for` loop of a function into a Lean step
+// function: parameters = the function's parameters (byte slices as lists of byte values), the loop
+// variable, and the one variable declared before the loop that the body assigns; result = the new
+// value of that variable.  Local constants and `var x T = e` declarations are supported.
+func (t *trans) translateLoopBody(name string, fd *ast.FuncDecl) string {
+	t.env = map[string]tkind{}
+	t.err = ""
+	var params []string
+	for _, f := range fd.Type.Params.List {
+		k, ok := kindOfType(f.Type)
+		ty := "Nat"
+		if !ok {
+			if at, isArr := f.Type.(*ast.ArrayType); isArr && at.Len == nil && exprText(at.Elt) == "byte" {
+				k, ty = kB, "List Nat"
+			} else {
+				t.err = "parameter type " + exprText(f.Type)
+				return ""
+			}
+		} else if k == kI {
+			ty = "Int"
+		}
+		for _, n := range f.Names {
+			t.env[n.Name] = k
+			params = append(params, fmt.Sprintf("(%s : %s)", n.Name, ty))
+		}
+	}
+	consts := map[string]string{}
+	var loop *ast.ForStmt
+	for _, st := range fd.Body.List {
+		switch s := st.(type) {
+		case *ast.DeclStmt:
+			gd, ok := s.Decl.(*ast.GenDecl)
+			if !ok {
+				t.err = "declaration"
+				return ""
+			}
+			for _, sp := range gd.Specs {
+				vs := sp.(*ast.ValueSpec)
+				if len(vs.Names) != 1 || len(vs.Values) != 1 {
+					t.err = "declaration shape"
+					return ""
+				}
+				k := kU
+				if vs.Type != nil {
+					kk, ok := kindOfType(vs.Type)
+					if !ok {
+						t.err = "declared type " + exprText(vs.Type)
+						return ""
+					}
+					k = kk
+				}
+				if gd.Tok == token.CONST {
+					_, e := t.expr(vs.Values[0], k)
+					consts[vs.Names[0].Name] = e
+					t.env[vs.Names[0].Name] = k
+				} else {
+					t.env[vs.Names[0].Name] = k // a variable declared before the loop: candidate carried variable
+				}
+			}
+		case *ast.ForStmt:
+			if loop != nil {
+				t.err = "more than one loop"
+				return ""
+			}
+			loop = s
+		case *ast.ReturnStmt:
+		default:
+			t.err = fmt.Sprintf("statement %T before the loop", st)
+			return ""
+		}
+	}
+	if loop == nil {
+		t.err = "no loop"
+		return ""
+	}
+	init, ok := loop.Init.(*ast.AssignStmt)
+	if !ok || len(init.Lhs) != 1 {
+		t.err = "loop init"
+		return ""
+	}
+	loopVar := init.Lhs[0].(*ast.Ident).Name
+	t.env[loopVar] = kU
+	carried := ""
+	var body strings.Builder
+	for name, e := range consts {
+		fmt.Fprintf(&body, "  let %s := %s\n", name, e)
+	}
+	for _, st := range loop.Body.List {
+		switch s := st.(type) {
+		case *ast.DeclStmt:
+			gd := s.Decl.(*ast.GenDecl)
+			for _, sp := range gd.Specs {
+				vs := sp.(*ast.ValueSpec)
+				if len(vs.Names) != 1 || len(vs.Values) != 1 {
+					t.err = "declaration shape in the loop"
+					return ""
+				}
+				k := kU
+				if vs.Type != nil {
+					kk, ok := kindOfType(vs.Type)
+					if !ok {
+						t.err = "declared type " + exprText(vs.Type)
+						return ""
+					}
+					k = kk
+				}
+				ek, e := t.expr(vs.Values[0], k)
+				if ek != k {
+					t.err = "declaration kind"
+					return ""
+				}
+				t.env[vs.Names[0].Name] = k
+				fmt.Fprintf(&body, "  let %s := %s\n", vs.Names[0].Name, e)
+			}
+		case *ast.AssignStmt:
+			if len(s.Lhs) != 1 || len(s.Rhs) != 1 {
+				t.err = "multiple assignment in the loop"
+				return ""
+			}
+			id, ok := s.Lhs[0].(*ast.Ident)
+			if !ok {
+				t.err = "assignment target in the loop"
+				return ""
+			}
+			if s.Tok == token.DEFINE {
+				k, e := t.expr(s.Rhs[0], kU)
+				t.env[id.Name] = k
+				fmt.Fprintf(&body, "  let %s := %s\n", id.Name, e)
+			} else if s.Tok == token.ASSIGN {
+				k0, known := t.env[id.Name]
+				if !known {
+					t.err = "assignment to unknown " + id.Name
+					return ""
+				}
+				if carried != "" && carried != id.Name {
+					t.err = "more than one carried variable"
+					return ""
+				}
+				carried = id.Name
+				k, e := t.expr(s.Rhs[0], k0)
+				if k != k0 {
+					t.err = "assignment kind"
+					return ""
+				}
+				fmt.Fprintf(&body, "  let %s := %s\n", id.Name, e)
+			} else {
+				t.err = "assignment operator in the loop"
+				return ""
+			}
+		default:
+			t.err = fmt.Sprintf("statement %T in the loop", st)
+			return ""
+		}
+		if t.err != "" {
+			return ""
+		}
+	}
+	if carried == "" || t.err != "" {
+		if t.err == "" {
+			t.err = "no carried variable"
+		}
+		return ""
+	}
+	cty := "Nat"
+	if t.env[carried] == kI {
+		cty = "Int"
+	}
+	return fmt.Sprintf("def %s %s (%s : Nat) (%s : %s) : %s :=\n%s  %s\n", leanIdent("fn_"+t.alias+"_"+name+"_body"),
+		strings.Join(params, " "), loopVar, carried, cty, cty, body.String(), carried)
 }
